@@ -46,28 +46,30 @@ theorem accept_iff_wellformed (L : Lists) (ss : List Schedule) :
 example : validateSchedules tables ⟨[none], [none, some 2], [], [some 3]⟩
     [.items [Item.mk "state" 0, Item.mk "mprocess" 0, Item.mk "povm" 1]] = .ok () := by decide
 
-/-- **C20.b `reject_item_or_order`** (which of the two exceptions, and where). Scope: every schedule is a *sequence*
-(list, tuple, …) or is not iterable at all (`Schedule.isSeq`); iterables that are not sequences (generator, dict, set)
-are excluded here — for them the claim is FALSE on the code as it is, see `reject_is_schedule_error_nonSequence_fails`.
-If such a schedule list is rejected, the result is always the schedule-item or the schedule-order error, decided by the first
-schedule that is not well formed: a schedule that cannot be iterated (`None`, an int …) gives the schedule-item error
-(no item position); if one of its items is malformed the schedule-item error carries that schedule's position and the
-position `j` of its *first* malformed item (all items before `j` are well-formed pairs); otherwise it is the
-schedule-order error for that schedule. -/
-theorem reject_item_or_order (L : Lists) (ss : List Schedule) (e : Err) (hseq : ∀ s ∈ ss, s.isSeq = true)
+/-- **C20.b `reject_item_or_order`** (which of the two exceptions, and where) — for EVERY kind of schedule the model knows:
+sequences, objects that cannot be iterated, and iterables that are not sequences (generator, dict, set; rejected with the
+order error since fix df6ca25, former defect D18). If a schedule list is rejected, the result is always the schedule-item or
+the schedule-order error, decided by the first schedule that is not well formed:
+a schedule that cannot be iterated (`None`, an int …) gives the schedule-item error (no item position); an iterable with a
+malformed item gives the schedule-item error carrying that schedule's position and the position `j` of its *first* malformed
+item (all items before `j` are well-formed pairs); a sequence whose items are fine gives the schedule-order error because its
+kinds violate the order rule; an iterable that is not a sequence and whose items are fine gives the schedule-order error. -/
+theorem reject_item_or_order (L : Lists) (ss : List Schedule) (e : Err)
     (h : validateSchedules tables L ss = .error e) :
     ∃ pre s post, ss = pre ++ s :: post ∧ (∀ x ∈ pre, WellFormed L x) ∧ ¬ WellFormed L s ∧
       ((s = .nonIterable ∧ e = .itemNoPos pre.length) ∨
-       (∃ its j ex pre' it post', s = .items its ∧ e = .item pre.length j ex ∧ its = pre' ++ it :: post' ∧
+       (∃ its j ex pre' it post', s.itemsOf? = some its ∧ e = .item pre.length j ex ∧ its = pre' ++ it :: post' ∧
           j = pre'.length ∧ validateItem tables L it = .error ex ∧
           ∀ x ∈ pre', ∃ p, x = Item.mk p.1 p.2 ∧ InRange L p) ∨
        (∃ (its : List Item) (ps : List (String × Int)) (r : OrderErr), s = .items its ∧ e = .order pre.length r ∧
-          its = ps.map (fun p => Item.mk p.1 p.2) ∧ (∀ p ∈ ps, InRange L p) ∧ ¬ OrderRule (ps.map (·.1)))) := by
+          its = ps.map (fun p => Item.mk p.1 p.2) ∧ (∀ p ∈ ps, InRange L p) ∧ ¬ OrderRule (ps.map (·.1))) ∨
+       (∃ (k : NonSeq) (its : List Item) (ps : List (String × Int)) (r : OrderErr), s = .nonSequence k its ∧
+          e = .order pre.length r ∧ its = ps.map (fun p => Item.mk p.1 p.2) ∧ ∀ p ∈ ps, InRange L p)) := by
   obtain ⟨pre, s, post, h1, h2, h3, h4⟩ :=
-    validateSchedulesAux_error tables tables_minLen tables_kindsAreKeys L ss 0 e hseq h
+    validateSchedulesAux_error tables tables_minLen tables_kindsAreKeys L ss 0 e h
   refine ⟨pre, s, post, h1, fun x hx => (schedOk_iff_wellFormed L x).1 (h2 x hx),
     fun hw => h3 ((schedOk_iff_wellFormed L _).2 hw), ?_⟩
-  rcases h4 with ⟨hs, he⟩ | ⟨its, j, ex, hs, he, hj⟩ | ⟨its, names, r, hs, he, hn, ho⟩
+  rcases h4 with ⟨hs, he⟩ | ⟨its, j, ex, hs, he, hj⟩ | ⟨its, names, r, hs, he, hn, ho⟩ | ⟨k, its, names, r, hs, he, hn⟩
   · left; exact ⟨hs, by simpa using he⟩
   · right; left
     obtain ⟨pre', it, post', g1, g2, g3, g4⟩ := validateItems_error tables L its 0 j ex hj
@@ -76,46 +78,40 @@ theorem reject_item_or_order (L : Lists) (ss : List Schedule) (e : Err) (hseq : 
     obtain ⟨n, hn⟩ := g4 x hx
     obtain ⟨i, hi, hp⟩ := (validateItem_ok_iff tables L x n).1 hn
     exact ⟨(n, i), hi, (pairOk_iff_inRange L (n, i)).1 hp⟩
-  · right; right
+  · right; right; left
     obtain ⟨ps, g1, g2, g3⟩ := (validateItems_ok_iff tables L its 0 names).1 hn
     refine ⟨its, ps, r, hs, by simpa using he, g1, fun p hp => (pairOk_iff_inRange L p).1 (g3 p hp), ?_⟩
     intro hr
     have := (validateOrder_ok_iff tables tables_minLen names).2 (by rw [g2]; exact (orderOk_iff_orderRule _).2 hr)
     rw [ho] at this; cases this
+  · right; right; right
+    obtain ⟨ps, g1, _, g3⟩ := (validateItems_ok_iff tables L its 0 names).1 hn
+    exact ⟨k, its, ps, r, hs, by simpa using he, g1, fun p hp => (pairOk_iff_inRange L p).1 (g3 p hp)⟩
 
-/-- every rejection of sequences / non-iterables is one of the two schedule errors (corollary; was violated for
-non-iterables before fix d4e3672, D13; still violated for non-sequence iterables, D18 below) -/
-theorem reject_is_schedule_error (L : Lists) (ss : List Schedule) (e : Err) (hseq : ∀ s ∈ ss, s.isSeq = true)
+/-- **C20.b' `reject_is_schedule_error`** — every rejection, of any schedule list, is one of the two schedule errors
+(violated for non-iterables before fix d4e3672 — D13 — and for non-sequence iterables before fix df6ca25 — D18). -/
+theorem reject_is_schedule_error (L : Lists) (ss : List Schedule) (e : Err)
     (h : validateSchedules tables L ss = .error e) :
     (∃ i, e = .itemNoPos i) ∨ (∃ i j ex, e = .item i j ex) ∨ (∃ i r, e = .order i r) := by
-  obtain ⟨pre, s, post, _, _, _, h4⟩ := reject_item_or_order L ss e hseq h
-  rcases h4 with ⟨_, he⟩ | ⟨_, j, ex, _, _, _, _, he, _⟩ | ⟨_, _, r, _, he, _⟩
+  obtain ⟨pre, s, post, _, _, _, h4⟩ := reject_item_or_order L ss e h
+  rcases h4 with ⟨_, he⟩ | ⟨_, j, ex, _, _, _, _, he, _⟩ | ⟨_, _, r, _, he, _⟩ | ⟨_, _, _, r, _, he, _⟩
   · exact Or.inl ⟨_, he⟩
   · exact Or.inr (Or.inl ⟨_, j, ex, he⟩)
+  · exact Or.inr (Or.inr ⟨_, r, he⟩)
   · exact Or.inr (Or.inr ⟨_, r, he⟩)
 
 example : validateSchedules tables ⟨[none], [none], [], []⟩
     [.items [Item.mk "state" 0, Item.mk "povm" 0], .nonIterable] = .error (.itemNoPos 1) := by decide
 
-/-- `reject_item_or_order` instantiated: both hypotheses hold for a list whose second schedule has an order error -/
+/-- `reject_item_or_order` instantiated: the hypothesis holds for a list whose second schedule has an order error -/
 example := reject_item_or_order ⟨[none], [none], [], []⟩
-  [.items [Item.mk "state" 0, Item.mk "povm" 0], .items [Item.mk "povm" 0, Item.mk "state" 0]] (.order 1 .first)
-  (by decide) (by decide)
+  [.items [Item.mk "state" 0, Item.mk "povm" 0], .items [Item.mk "povm" 0, Item.mk "state" 0]] (.order 1 .first) (by decide)
 
-/-- **open finding D18, negation witness** — an iterable that is not a sequence (generator, dict, set) whose items are
-all fine is NOT rejected with the schedule-item / schedule-order error: `_validate_schedule_order` calls
-`len(schedule)` / `schedule[0]` and only `ValueError` is converted, so `TypeError` (generator, set) or `KeyError` (dict)
-escapes. (A malformed item is still reported as the schedule-item error, a too short dict / set as the order error.) -/
-theorem reject_is_schedule_error_nonSequence_fails :
-    ¬ (∀ (L : Lists) (ss : List Schedule) (e : Err), validateSchedules tables L ss = .error e →
-        (∃ i, e = .itemNoPos i) ∨ (∃ i j ex, e = .item i j ex) ∨ (∃ i r, e = .order i r)) := by
-  intro h
-  have := h ⟨[none], [none], [], []⟩ [.nonSequence .keyed [Item.mk "state" 0, Item.mk "povm" 0]] (.escaped .keyError)
-    (by decide)
-  rcases this with ⟨_, h⟩ | ⟨_, _, _, h⟩ | ⟨_, _, h⟩ <;> cases h
-
+/-- generator / dict / set schedules (former defect D18): order error when the items are fine, item error otherwise -/
 example : validateSchedules tables ⟨[none], [none], [], []⟩ [.nonSequence .noLen [Item.mk "state" 0, Item.mk "povm" 0]] =
-    .error (.escaped .typeError) := by decide
+    .error (.order 0 .notSequence) := by decide
+example : validateSchedules tables ⟨[none], [none], [], []⟩ [.nonSequence .keyed [Item.mk "state" 0, Item.mk "povm" 0]] =
+    .error (.order 0 .notSequence) := by decide
 example : validateSchedules tables ⟨[none], [none], [], []⟩ [.nonSequence .unordered [Item.mk "state" 0]] =
     .error (.order 0 .tooShort) := by decide
 example : validateSchedules tables ⟨[none], [none], [], []⟩ [.nonSequence .noLen [Item.mk "state" 0, Item.mk "povm" 7]] =
